@@ -441,6 +441,11 @@ class Lowering:
                 if e in name:
                     name = name.replace(e, v)
         name = re.sub(r'(?<![A-Za-z0-9_])(\d+)(?:[uU][lL]{0,2}|[lL]{1,2}[uU]?)(?![A-Za-z0-9_])', r'\1', name)
+        if '<' in name and name not in self.rec_by_name and name not in self.typedefs:
+            # bool template arguments: the JSON AST records them as 1-bit integers (true == -1)
+            alt = re.sub(r'(?<=[<, ])true(?=[,>])', '-1', re.sub(r'(?<=[<, ])false(?=[,>])', '0', name))
+            if alt != name and (alt in self.rec_by_name or alt in self.typedefs):
+                name = alt
         # template arguments printed as unevaluated constant expressions ("1 - 1")
         for _ in range(4):
             m = re.search(r'(?<![A-Za-z0-9_])(\d+) ([-+]) (\d+)(?![A-Za-z0-9_])', name)
